@@ -214,7 +214,7 @@ func reportBad(c *core.Ctx, outs []*RunOut, st *ValStats, mine func(why string) 
 		n    int
 	}
 	groups := map[string]*grp{}
-	for run, whys := range FirstBad(st) {
+	for run, whys := range FirstBad(st, mine) {
 		o := byID[run]
 		if o == nil {
 			return fmt.Errorf("validator reported unknown run %q", run)
